@@ -4,7 +4,14 @@
 P=$1; TIER=${2:-quick}
 ISO=${ISO:-/tmp/iso2}
 mkdir -p "$ISO/v" "$ISO/r"
-rsync -a --delete --exclude target --exclude work --exclude replays --exclude .git /verif/ "$ISO/v/"
+# long sweeps list their ISO directory in /tmp/iso_use_committed: they take the COMMITTED /verif (git HEAD), so that
+# edits in progress in the working tree cannot leak into them
+if [ -f /tmp/iso_use_committed ] && grep -qx "$ISO" /tmp/iso_use_committed; then
+  rm -rf "$ISO/vsrc"; mkdir -p "$ISO/vsrc"; git -C /verif archive HEAD | tar -x -C "$ISO/vsrc"
+  rsync -a --delete --exclude target --exclude work --exclude replays "$ISO/vsrc/" "$ISO/v/"
+else
+  rsync -a --delete --exclude target --exclude work --exclude replays --exclude .git /verif/ "$ISO/v/"
+fi
 rsync -a --delete --exclude target /repo/ "$ISO/r/"
 git -C "$ISO/r" checkout -q -- . 2>/dev/null
 git -C "$ISO/r" apply "$P" || { echo "patch does not apply"; exit 2; }
